@@ -25,6 +25,21 @@ def cases(rng, tier):
     for p in pktgen.big_packets(rng, 3 if tier == "quick" else 12) + pktgen.straddle_packets(rng, (1, 5, 6, 11)) + pktgen.huge_packets(rng, (0, 40, 16000, 16384)):
         b, _ = dns.encode_marked(p, rng, 0)
         out.append("REPARSE " + b.hex())
+    # NSEC bitmaps with every ordered pair (and a few triples) of window numbers from both ends of the range, SVCB parameters
+    # likewise: accepted or not, what is accepted must come back unchanged
+    ends = (0, 1, 2, 254, 255)
+    seqs = [(a, b) for a in ends for b in ends] + [(0, 255, 3), (255, 0, 1), (1, 255, 255), (254, 255, 0)]
+    for ws in seqs:
+        rd = b"\x04next\x00" + b"".join(bytes([w, 1, 0x40]) for w in ws)
+        rec = b"\x01n\x00\x00\x2f\x00\x01\x00\x00\x00\x3c" + len(rd).to_bytes(2, "big") + rd
+        out.append("REPARSE " + (b"\x00\x09\x84\x00\x00\x00\x00\x01\x00\x00\x00\x00" + rec).hex())
+    kends = (0, 1, 2, 65534, 65535)
+    kseqs = [(a, b) for a in kends for b in kends] + [(0, 65535, 3), (65535, 0), (1, 65535, 65535)]
+    for ks in kseqs:
+        rd = b"\x00\x01\x01t\x00" + b"".join(k.to_bytes(2, "big") + b"\x00\x01\x07" for k in ks)
+        for tcode in (64, 65):
+            rec = b"\x01s\x00" + tcode.to_bytes(2, "big") + b"\x00\x01\x00\x00\x00\x3c" + len(rd).to_bytes(2, "big") + rd
+            out.append("REPARSE " + (b"\x00\x09\x84\x00\x00\x00\x00\x01\x00\x00\x00\x00" + rec).hex())
     # one large RDATA of every variable-length type, up to what an RDLENGTH can announce
     for p in pktgen.blob_packets(tier):
         out.append("REPARSE " + dns.enc_packet_ref(p).hex())
